@@ -13,7 +13,7 @@ LEVEL = "model_checking"
 TECHNIQUE = "explicit enumeration of all attach / re-attach histories (bounded length) over simulated targets of every peripheral device type and qualifier on both transports, judged by a device-type -> command-set reference table and a differential comparison with a fresh facade"
 RULE = ("depth 1: all 32 peripheral device types x 8 qualifiers x {SG_IO, iSCSI} x {SCSI(dev), facade(dev) re-attach}; all 32 types x every single bit of INQUIRY bytes 1-7 and 56 set (the selection may depend on the device type only); histories: all sequences of "
         "length <= 3 over device types {00,01,03,04,05,07,08,0E,1F} (9^1+9^2+9^3 per transport, mixing transports at the second step), "
-        "first step by construction, later steps by calling the same facade; every history of length 2-3 also with one earlier attach refused by its device (CHECK CONDITION / BUSY to the INQUIRY): it fails and the following attaches are judged as usual. states = distinct (facade device, per-device command set) "
+        "first step by construction, later steps by calling the same facade; every history of length 2-3 also with one earlier attach refused by its device (CHECK CONDITION / BUSY to the INQUIRY): it fails and the following attaches are judged as usual. all 32 types x 5 previous sets on a device object that logs every assignment to .opcodes (the set changes in one step, no transient other set). states = distinct (facade device, per-device command set) "
         "configurations; transitions = attach events. Non-trivial = history has a re-attach or a type other than 00.")
 ASSUMPTIONS = [
     "reference table (SPC-4 table 'peripheral device type' + which command standard governs it): 00/04/07 -> SBC, 01 -> SSC, 05 -> MMC, 08 -> SMC; processor (03) and every other code: only the primary commands are required (INQUIRY, TEST UNIT READY, REPORT LUNS with their T10 values)",
@@ -28,7 +28,7 @@ def bounds(tier):
 
 
 def partitions(tier):
-    parts = [["depth1", tr] for tr in ("sgio", "iscsi")]
+    parts = [["depth1", tr] for tr in ("sgio", "iscsi")] + [["transient"]]
     for tr in ("sgio", "iscsi"):
         for t in ALPHA:
             parts.append(["hist", tr, t])
@@ -128,8 +128,61 @@ def run_case(case, obs=None):
     return out
 
 
+class LogDev(object):
+    """a device object that notes every assignment to .opcodes (what another thread sharing the device could observe)"""
+
+    def __init__(self, dtype, start):
+        self._ops = start
+        self.assigned = []
+        self.dtype = dtype
+        self.devicetype = None
+
+    @property
+    def opcodes(self):
+        return self._ops
+
+    @opcodes.setter
+    def opcodes(self, v):
+        self.assigned.append(v)
+        self._ops = v
+
+    def execute(self, cmd, en_raw_sense=False):
+        if cmd.cdb[0] == 0x12 and len(cmd.datain):
+            cmd.datain[0] = self.dtype
+            if len(cmd.datain) > 4:
+                cmd.datain[4] = 31
+
+    def close(self):
+        pass
+
+
+def run_transient(case):
+    """during an attach the device's command set goes from what it was to what the device type prescribes in ONE step: no other
+    set is ever assigned in between (a second user of the same device object must never find a set that lacks its commands)"""
+    install.ensure()
+    from pyscsi.pyscsi.scsi import SCSI
+    _, dtype, start = case
+    dev = LogDev(dtype, harness.opcode_set(start))
+    s = SCSI(dev)
+    out = []
+    final = dev.opcodes
+    other = [a for a in dev.assigned if a is not final]
+    if other or len(dev.assigned) > 1:
+        names = []
+        for a in dev.assigned:
+            names.append(next((n for n in ("spc", "sbc", "ssc", "smc", "mmc") if a is harness.opcode_set(n)), "other"))
+        out.append(("transient_set", "attach to device type %#04x (device object previously on %s): .opcodes was assigned %r in turn" % (dtype, start, names)))
+    want = EXPECT.get(dtype)
+    if want is not None and final is not harness.opcode_set(want):
+        out.append(("wrong_set/%02x" % dtype, "device type %#04x ends on another set than %s" % (dtype, want)))
+    s2 = SCSI(dev)          # a second facade over the same device: same rule
+    if [a for a in dev.assigned if a is not final]:
+        out.append(("transient_set", "second attach to the same device object of type %#04x: .opcodes passed through another set" % dtype))
+    return out
+
+
 def replay(case):
-    return run_case(case)
+    return run_transient(case) if case[0] == "transient" else run_case(case)
 
 
 def run_partition(part, tier, seed):
@@ -153,6 +206,22 @@ def run_partition(part, tier, seed):
         acc.transitions += len(steps)
         acc.traces += 1
 
+    if part[0] == "transient":
+        for dtype in range(32):
+            for start in ("spc", "sbc", "ssc", "smc", "mmc"):
+                case = ["transient", dtype, start]
+                acc.case(case, nontrivial=True, key=repr(case))
+                try:
+                    v = run_transient(case)
+                except Exception:
+                    import traceback
+                    v = [("harness_error", traceback.format_exc()[-600:])]
+                for k, w in v:
+                    acc.violation(k, w, case)
+                acc.outcome((repr(case), tuple(k for k, _ in v)))
+                acc.transitions += 2
+                acc.traces += 1
+        return acc
     if part[0] == "depth1":
         tr = part[1]
         for dtype in range(32):
